@@ -464,6 +464,10 @@ def gen_c09(rnd, syms, tier):
             add(v, fmt, dict(dark=bad), 'invalid-colour')
             if fmt == 'png':
                 add(v, fmt, dict(light=bad), 'invalid-colour')
+    for first, second in (((10, 20, 30, 1.0), (10, 20, 30, 1)), ((40, 50, 60, 1), (40, 50, 60, 1.0))):
+        for fmt in ('png', 'pam'):
+            add(1, fmt, dict(dark=first, light=None), 'colour-history:alpha')
+            add(1, fmt, dict(dark=second, light=None), 'colour-history:alpha')
     return cases
 
 
@@ -523,4 +527,17 @@ def gen_c11(rnd, syms, tier):
                 if rnd.random() < 0.5:
                     kw[rnd.choice(['data_light', 'quiet_zone', 'separator'])] = None
                 add(v, 'png', kw, 'colourful:transparent-standin')
+    # call histories: identical multi-colour arguments for symbols of different size classes (Micro / version < 7 / version >= 7),
+    # in this order and reversed — a colour map must not survive from one symbol to the next
+    for fmt in ('png', 'svg', 'ppm'):
+        kw = dict(finder_dark='darkred', data_dark='navy', version_dark='teal', alignment_dark='gold', dark_module='lime', timing_dark='indigo')
+        order = [-3, 1, 7, -1, 10, 0, 2] if rnd.random() < 0.5 else [7, 1, -3, 10, -1, 2, 0]
+        for v in order:
+            add(v, fmt, dict(kw), f'colour-history:{fmt}')
+    # colours that compare equal as Python values but differ in meaning: alpha 1 (= 1/255) and alpha 1.0 (opaque)
+    for first, second in (((10, 20, 30, 1.0), (10, 20, 30, 1)), ((40, 50, 60, 1), (40, 50, 60, 1.0))):
+        add(1, 'png', dict(dark=first, light=None), 'colour-history:alpha')
+        add(1, 'png', dict(dark=second, light=None), 'colour-history:alpha')
+        add(2, 'png', dict(data_dark=first, light='white'), 'colour-history:alpha')
+        add(2, 'png', dict(data_dark=second, light='white'), 'colour-history:alpha')
     return cases
